@@ -15,7 +15,7 @@ import ast
 
 from ..model import AnalysisError, dotted, unparse, walk_local
 from ..engines import coordkind
-from ._common import dim_generic, names_and_calls_resolve
+from ._common import dim_generic, names_and_calls_resolve, groupop_composition_order
 
 # (module, qualified function, {param: kind}, declared return kind or None)
 TABLE = [
@@ -95,6 +95,7 @@ def run(model, rep, tier):
                 rep.ob('return-kind', mod, r, '%s returns %s, documented %s' % (q, k, ret), ok,
                        '' if ok else 'the returned value is of another coordinate kind than documented', engine='coordkind', qual=q)
     rep.floor('operator applications / sums decided', nchecked, 30)
+    groupop_composition_order(model, rep)
     names_and_calls_resolve(model, rep, ROUTES)
     dim_generic(model, rep, [(m, q) for m, q in ROUTES], min_functions=40)
 
